@@ -79,8 +79,22 @@ def run(ctx):
                     rs.violate(k2, bad, loc, edt.fmt(t))
                 else:
                     rs.inst(k2, loc, "ok", {"class": cls["cls"]})
+    # skip-n-chars: the primitive behind SkipChar<N> advances over exactly n chars of the remaining (bounded) input
+    from .. import inv
+    table = inv.load_table("discharge_unsafe.json")
+    fid = "pest_typed::input::Input::skip"
+    b = repo.body(fid)
+    if b is None:
+        rs.violate("Input::skip", "primitive missing (anchor lost)")
+    else:
+        sites = inv.keyed(list(inv.sites(repo, fid, b, {"unsafe"})), fid)
+        if sites and all(s["key"] in table for s in sites):
+            rs.inst("Input::skip: cursor advance", sites[0]["loc"], "ok: reviewed entry (sum of the UTF-8 lengths of the first n chars of get())", {"key": sites[0]["key"]})
+        else:
+            rs.violate("Input::skip: cursor advance", "skip(n) does not advance by the lengths of the first n chars of get() in the reviewed way: %s" % [s["key"] for s in sites],
+                       sites[0]["loc"] if sites else None)
     rb.require(12, "repetition functions")
-    rs.require(8, "raw combinator functions")
+    rs.require(9, "raw combinator functions")
     # twins of these types
     def only(im):
         p, _ = im.self_adt()
